@@ -49,6 +49,7 @@ def gen(st, index, job):
     ops = []
     for _ in range(nops):
         ops.append([enabled[ro.randrange(len(enabled))], ro.randrange(64), ro.randrange(64)])
+    ops[0][0] = OPS[index % len(OPS)]   # stratified first operation
     return {'backing': backing, 'items': items, 'ops': ops}
 
 
